@@ -62,6 +62,7 @@ def evaluate(plan: dict, script: Optional[list] = None, explain: bool = True) ->
         "probes": sim["probes"],
         "lock_contention": sim["lock_contention"],
         "lock_acquires": sim["lock_acquires"],
+        "stalls": sim.get("stalls", 0),
         "fault_fired": fired,
         "ops": len(base["pre"]) + len(base["post"]),
         "results_digest": _rdigest(sim),
@@ -94,6 +95,7 @@ def handler(task: dict) -> dict:
         "opcode": plan["opcode"],
         "cache_size": plan["cache_size"],
         "prefill": plan.get("prefill", 0),
+        "stall": plan.get("stall"),
         "fault": plan["fault"],
     }
     if out["violation"] is None:
@@ -150,6 +152,8 @@ def minimise(plan: dict, script: list, cls: str, budget_s: float = 120.0) -> (di
             cands.append(dict(plan, cache_size=None))
         if plan.get("prefill"):
             cands.append(dict(plan, prefill=0))
+        if plan.get("stall"):
+            cands.append(dict(plan, stall=None))
         if plan.get("opcode"):
             cands.append(dict(plan, opcode=False))
         for t, th in enumerate(plan["threads"]):
@@ -158,23 +162,31 @@ def minimise(plan: dict, script: list, cls: str, budget_s: float = 120.0) -> (di
                     continue
                 nt = [list(x) for x in plan["threads"]]
                 del nt[t][j]
-                f = plan.get("fault")
-                if f and f["thread"] == t:
-                    if f["op"] == j:
-                        continue
-                    if f["op"] > j:
-                        f = dict(f, op=f["op"] - 1)
+                # the two per-operation faults (raise / stall) follow their operation
+                marks = {"fault": plan.get("fault"), "stall": plan.get("stall")}
+                skip = False
+                for key, f in list(marks.items()):
+                    if f and f["thread"] == t:
+                        if f["op"] == j:
+                            skip = True
+                        elif f["op"] > j:
+                            marks[key] = dict(f, op=f["op"] - 1)
+                if skip:
+                    continue
                 if not nt[t]:
                     if len(nt) <= 2 and any(not x for x in nt):
                         # keep >= 1 op per thread for 2 threads; allow removing whole thread if >2
                         continue
                     del nt[t]
-                    if f:
-                        if f["thread"] == t:
-                            continue
-                        if f["thread"] > t:
-                            f = dict(f, thread=f["thread"] - 1)
-                cands.append(dict(plan, threads=nt, fault=f))
+                    for key, f in list(marks.items()):
+                        if f:
+                            if f["thread"] == t:
+                                skip = True
+                            elif f["thread"] > t:
+                                marks[key] = dict(f, thread=f["thread"] - 1)
+                    if skip:
+                        continue
+                cands.append(dict(plan, threads=nt, fault=marks["fault"], stall=marks["stall"]))
         for c in cands:
             if left() <= 0:
                 break
@@ -377,6 +389,8 @@ class Agg:
         self.fault_fired = 0
         self.cache_pressure = 0
         self.prefill_runs = 0
+        self.stall_armed = 0
+        self.stall_fired = 0
         self.opcode_runs = 0
         self.opcode_kinds: Dict[str, int] = {}
         self.opcode_crashes = 0
@@ -412,6 +426,9 @@ class Agg:
             self.cache_pressure += 1
         if pb.get("prefill"):
             self.prefill_runs += 1
+        if pb.get("stall"):
+            self.stall_armed += 1
+            self.stall_fired += 1 if r.get("stalls") else 0
         if pb["opcode"]:
             self.opcode_runs += 1
             self.opcode_kinds[str(pb["opcode"])] = self.opcode_kinds.get(str(pb["opcode"]), 0) + 1
@@ -460,6 +477,8 @@ class Agg:
                 "callback_fault_fired_runs": self.fault_fired,
                 "cache_pressure_runs": self.cache_pressure,
                 "warm_process_prefill_runs": self.prefill_runs,
+                "stalled_callback_armed_runs": self.stall_armed,
+                "stalled_callback_fired_runs": self.stall_fired,
                 "opcode_granularity_runs": self.opcode_runs,
                 "opcode_granularity_by_kind": self.opcode_kinds,
                 "opcode_runs_rerun_at_line_granularity_after_interpreter_crash": self.opcode_crashes,
